@@ -3,6 +3,7 @@ package main
 import (
 	"go/token"
 	"go/types"
+	"regexp"
 	"sort"
 	"strings"
 
@@ -19,6 +20,11 @@ func (l *Loaded) consensusEntryPoints() []*ssa.Function {
 			continue
 		}
 		p := relPkg(fnPkgPath(fn))
+		// upgrade handlers run inside a block on every node: the migration code they call is consensus code
+		if p == "app/migrations" && fn.Object() != nil && fn.Object().Exported() {
+			out = append(out, fn)
+			continue
+		}
 		if !strings.HasPrefix(p, "x/") || strings.Contains(p, "/client") || strings.Contains(p, "/simulation") {
 			continue
 		}
@@ -84,7 +90,7 @@ func loopBlocks(h *ssa.BasicBlock) map[*ssa.BasicBlock]bool {
 }
 
 func checkC07(c *Check) {
-	c.Explanation = "Decided for every function of akash packages reachable (VTA call graph) from the consensus entry points (Msg servers, sdk.Msg methods, genesis/begin/end-block functions, escrow keeper API and hooks, gRPC query servers): (R1) every range over a map is order-insensitive — its body performs no calls with effects (store reads/writes cost gas, events), has no early exit, writes only into maps / integer accumulators, or appends to a slice that is sorted by the field filled from the range key before any other use on all paths; (R2) no reachable call to wall-clock, random, environment, runtime-introspection or reflection map-order sources, no goroutine, select or channel operation, no floating-point arithmetic; (R3) no write to package-level variables or to memory held behind a keeper's pointer fields (process-local caches make replicas diverge across restarts)."
+	c.Explanation = "Decided for every function of akash packages reachable (VTA call graph) from the consensus entry points (Msg servers, sdk.Msg methods, genesis/begin/end-block functions, escrow keeper API and hooks, gRPC query servers, the migration functions run by upgrade handlers): (R1) every range over a map is order-insensitive — its body performs no calls with effects (store reads/writes cost gas, events), has no early exit, writes only into maps / integer accumulators, or appends to a slice that is sorted by the field filled from the range key before any other use on all paths; (R2) no reachable call to wall-clock, random, environment, runtime-introspection or reflection map-order sources, no goroutine, select or channel operation, no floating-point arithmetic, no printf verb that bypasses String()/Error() on a value holding a pointer (it prints heap addresses); (R3) no write to package-level variables or to memory held behind a keeper's pointer fields (process-local caches make replicas diverge across restarts)."
 	c.NotDecided = "determinism of the Cosmos SDK, Tendermint and the Go runtime themselves"
 	l := c.L
 	scope := l.consensusScope()
@@ -132,6 +138,11 @@ func checkC07(c *Check) {
 					if strings.HasPrefix(full, f) || full == f {
 						c.Ob("R2", "call to "+full+" in "+fnName(fn), x.Pos(), false, "non-deterministic source reachable from consensus entry point: "+where)
 					}
+				}
+				// text that ends up in the transaction result: a verb that bypasses String()/Error() (%d, %p, ...) applied to a
+				// value holding pointers prints heap addresses, which differ from run to run and node to node
+				if bad := addressPrintingVerb(x); bad != "" {
+					c.Ob("R2", "formatted text in "+fnName(fn)+" prints no addresses", x.Pos(), false, bad+": the text (an error or log that is part of the result) differs between executions of the same transaction: "+where)
 				}
 				// R3: the address of an akash package variable handed to a call (pointer-receiver method or pointer
 				// argument) lets the callee mutate process-global state
@@ -608,6 +619,96 @@ func readOnlyGlobalUse(call ssa.CallInstruction, g *ssa.Global) bool {
 	case "(*github.com/cosmos/cosmos-sdk/types/errors.Error).Error", "(*github.com/cosmos/cosmos-sdk/types/errors.Error).Is",
 		"(*github.com/cosmos/cosmos-sdk/types/errors.Error).ABCICode", "(*github.com/cosmos/cosmos-sdk/types/errors.Error).Codespace":
 		return true
+	}
+	return false
+}
+
+var fmtVerbRE = regexp.MustCompile(`%[-+# 0]*[0-9*]*(?:\.[0-9*]+)?([a-zA-Z%])`)
+
+// addressPrintingVerb: for a printf-style call with a constant format, the first argument whose verb does not go
+// through String()/Error() (anything but v, s, q, x, X) while its type holds a pointer and has no Format method.
+func addressPrintingVerb(call ssa.CallInstruction) string {
+	args := call.Common().Args
+	if len(args) < 2 {
+		return ""
+	}
+	fi := len(args) - 2
+	f, ok := strConst(args[fi])
+	if !ok {
+		return ""
+	}
+	sl, isSl := args[fi+1].(*ssa.Slice)
+	if !isSl {
+		return ""
+	}
+	arr, isArr := sl.X.(*ssa.Alloc)
+	if !isArr {
+		return ""
+	}
+	vals := arrayStores(arr)
+	k := 0
+	for _, m := range fmtVerbRE.FindAllStringSubmatch(f, -1) {
+		verb := m[1]
+		if verb == "%" {
+			continue
+		}
+		if k >= len(vals) {
+			break
+		}
+		v := vals[k]
+		k++
+		mi, isMI := v.(*ssa.MakeInterface)
+		if !isMI {
+			continue
+		}
+		t := mi.X.Type()
+		if verb == "p" {
+			return "%p prints an address"
+		}
+		if !strings.ContainsAny(verb, "dboOcUeEfFgGt") {
+			continue // v, s, q, x, X, w go through String()/Error(); anything else is not a value verb
+		}
+		if hasMethod(t, "Format") {
+			continue
+		}
+		if holdsPointer(t, 0) {
+			return "%" + verb + " of a " + types.TypeString(t, shortQual) + " (which holds a pointer) does not use its String method and prints the pointer's address"
+		}
+	}
+	return ""
+}
+
+func hasMethod(t types.Type, name string) bool {
+	for _, tt := range []types.Type{t, types.NewPointer(t)} {
+		ms := types.NewMethodSet(tt)
+		for i := 0; i < ms.Len(); i++ {
+			if ms.At(i).Obj().Name() == name {
+				return true
+			}
+		}
+	}
+	return false
+}
+
+func holdsPointer(t types.Type, d int) bool {
+	if d > 4 {
+		return false
+	}
+	switch u := t.Underlying().(type) {
+	case *types.Pointer, *types.Chan, *types.Signature, *types.Map:
+		return true
+	case *types.Basic:
+		return u.Kind() == types.UnsafePointer
+	case *types.Struct:
+		for i := 0; i < u.NumFields(); i++ {
+			if holdsPointer(u.Field(i).Type(), d+1) {
+				return true
+			}
+		}
+	case *types.Array:
+		return holdsPointer(u.Elem(), d+1)
+	case *types.Slice:
+		return holdsPointer(u.Elem(), d+1)
 	}
 	return false
 }
